@@ -131,6 +131,21 @@ def make_target(t, subclass=False):
     return GenerationKeeper(make_objective(nq, nc, multi, subclass), keep_n_best=k)
 
 
+def identity(x):
+    return x
+
+
+# how a population reaches update() / append(): the abstract population is the same list of individuals
+FEEDS = {'list': list, 'tuple': tuple, 'iter': iter, 'gen': lambda pop: (x for x in pop),
+         'map': lambda pop: map(identity, pop), 'rev': lambda pop: reversed(pop[::-1])}
+ONE_SHOT = ('iter', 'gen', 'map', 'rev')
+
+
+def feed_kind(case, n):
+    feed = case.get('feed') or []
+    return feed[n] if n < len(feed) else 'list'
+
+
 def run_impl(case):
     """drive the real archive / keeper; returns the list of observations (one per update; the
     sequence stops at the first exception)"""
@@ -153,6 +168,7 @@ def run_impl(case):
             else:
                 pop.append(objs[i])
         raised = False
+        pop = FEEDS[feed_kind(case, n)](pop)     # list (default) / tuple / single-pass iterable
         try:
             if is_keeper_target(t):
                 obj.append(pop)
@@ -553,6 +569,45 @@ def copy_and_subclass_cases():
     return out
 
 
+def container_cases(ctx):
+    """the population arrives as a tuple or (fronts and multi-objective keepers, whose update scans the
+    population exactly once) as a single-pass iterable: generator, iter(list), map object, reversed(...).
+    The abstract population - what the model is given - is the list of its elements.  Halls of fame index
+    the population (population[0], truthiness) and get lists and tuples only."""
+    r = ctx.rng
+    out = []
+    v2 = [(1.0, 5.0), (2.0, 4.0), (3.0, 3.0), (4.0, 2.0), (5.0, 1.0), (4.0, 4.0), (2.0, 2.0), (3.0, 3.0)]
+    v3 = [(0.0, 1.0, 2.0), (1.0, 2.0, 0.0), (2.0, 0.0, 1.0), (2.0, 1.0, 0.0), (2.0, 2.0, 1.0), (0.0, 1.0, 1.0), (1.0, 0.0, 2.0)]
+    pool2 = [dict(uid=i + 1, vals=v, gclass=i % 2, gen=0) for i, v in enumerate(v2)]
+    pool3 = [dict(uid=i + 1, vals=v, gclass=0, gen=0) for i, v in enumerate(v3)]
+    seqs2 = [[[0, 1, 2, 3, 4, 5]], [[0, 1, 2], [3, 4, 5]], [[5, 0], [1, 4, 6]], [[0, 4], [], [5, 2, 7], [6, 1]], [[2, 7], [1, 3]]]
+    seqs3 = [[[0, 1, 2, 3, 4]], [[4, 0], [1, 2, 5]], [[0, 1], [6, 3, 2], [5]]]
+    multi2 = [('pareto', 'uid', 0), ('pareto', 'same', 0), ('pareto', 'graph', 0), ('pareto', 'uid', 3), ('pareto', 'never', 0),
+              ('keeper', True, 1, 1, 1), ('keeper', True, 2, 1, 1), ('keepersim', 'graph', 1, 1, 1)]
+    multi3 = [('pareto', 'uid', 0), ('pareto', 'same', 4), ('keeper', True, 1, 1, 2), ('keeper', True, 1, 2, 1)]
+    for targets, pool, seqs in ((multi2, pool2, seqs2), (multi3, pool3, seqs3)):
+        for t in targets:
+            for pops in seqs:
+                for kind in ('tuple',) + ONE_SHOT:
+                    out.append({'target': list(t), 'pool': pool, 'pops': pops, 'feed': [kind] * len(pops)})
+                out.append({'target': list(t), 'pool': pool, 'pops': pops, 'feed': [r.choice(ONE_SHOT) for _ in pops]})
+    # halls of fame and single-objective keepers: tuples
+    pool1 = [dict(uid=i + 1, vals=(v,), gclass=0, gen=0) for i, v in enumerate([2.0, 1.0, 3.0, 0.5, 1.0, 2.5])]
+    for k in (1, 2, 3):
+        for pops in ([[0, 1, 2, 3]], [[2, 0], [1, 4, 3]], [[0], [], [5, 1], [3, 3]]):
+            out.append({'target': ['hof', k], 'pool': pool1, 'pops': pops, 'feed': ['tuple'] * len(pops)})
+            out.append({'target': ['keeper', False, k, 1, 0], 'pool': pool1, 'pops': pops, 'feed': ['tuple'] * len(pops)})
+    # random sequences with a random container per update
+    for _ in range(ctx.budget(100, 1500)):
+        c = random_case(ctx)
+        if r.random() < 0.5:
+            c = random_wide_case(ctx)
+        kinds = ('list', 'tuple') + ONE_SHOT if is_multi_target(tuple(c['target'])) else ('list', 'tuple')
+        c['feed'] = [r.choice(kinds) for _ in c['pops']]
+        out.append(c)
+    return out
+
+
 def zero_size_cases():
     """maxsize = 0 / None: update of an empty hall of fame with a non-empty population raises
     (outside the property's k >= 1; compared with the model only)"""
@@ -601,7 +656,7 @@ def case_key(case):
     return (tuple(case['target']), tuple((p['uid'], None if p['vals'] is None else tuple(p['vals']), p['gclass'], p['gen'], tuple(p.get('w') or ()))
                                          for p in case['pool']),
             tuple(tuple(p) for p in case['pops']), tuple(tuple(x) for x in case.get('fresh_copies', [])),
-            tuple(tuple(x) for x in case.get('copies', [])), bool(case.get('subclass')))
+            tuple(tuple(x) for x in case.get('copies', [])), bool(case.get('subclass')), tuple(case.get('feed') or ()))
 
 
 # ----------------------------------------------------------------------------------------
@@ -689,7 +744,9 @@ def judge(ctx, group, terms, metas, planted=0):
         ctx.count(group, key=case_key(case), nontrivial=nontrivial, target=t[0], updates=min(nupd, 10) if nupd < 10 else '10+',
                   distinct_individuals=min(f['shown'], 6), ties=f['ties'], repeats=f['repeats'],
                   empty_populations=min(f['empties'], 3), more_individuals_than_capacity=f['more_than_capacity'],
-                  new_best_but_not_flagged_improved=min(f['new_best_unflagged'], 3))
+                  new_best_but_not_flagged_improved=min(f['new_best_unflagged'], 3),
+                  population_container=('single-pass iterable' if any(k in ONE_SHOT for k in case.get('feed') or [])
+                                        else 'tuple' if 'tuple' in (case.get('feed') or []) else 'list'))
         if not ho:
             ctx.violate(group, {'case': case, 'observed': obs},
                         'observed after an update, contradicting C08: ' + (why.get(idx) or
@@ -707,7 +764,8 @@ def shrink(ctx, case):
     for _ in range(12):
         cands = []
         for i in range(len(cur['pops'])):
-            cands.append(dict(cur, pops=cur['pops'][:i] + cur['pops'][i + 1:], fresh_copies=[]))
+            feed = [feed_kind(cur, n) for n in range(len(cur['pops']))]
+            cands.append(dict(cur, pops=cur['pops'][:i] + cur['pops'][i + 1:], fresh_copies=[], feed=feed[:i] + feed[i + 1:]))
             for j in range(len(cur['pops'][i])):
                 p = cur['pops'][i][:j] + cur['pops'][i][j + 1:]
                 cands.append(dict(cur, pops=cur['pops'][:i] + [p] + cur['pops'][i + 1:], fresh_copies=[]))
@@ -745,7 +803,8 @@ def run(ctx):
                 'middle / evictions); subclass: every other keeper sequence with a complexity metric uses an Objective subclass that overrides `metrics` to supply '
                 'its last criterion, plus chains in which only that criterion improves; invalid fitness: the 3-letter alphabet of the 1-objective hall-of-fame configurations has a 4th letter '
                 '(null fitness), all 24 orders of {invalid, a, b, c} shown to an empty hall of fame, k 1..4, and 20 % invalid individuals in the random '
-                'hall-of-fame pools; evaluations = updates compared; distinct = distinct sequence; '
+                'hall-of-fame pools; containers: structured and random sequences whose populations are passed as tuple (all targets) or generator / iter / map / reversed '
+                '(fronts and multi-objective keepers), the model given the list of their elements; evaluations = updates compared; distinct = distinct sequence; '
                 'non-trivial = >= 2 individuals shown and a tie, a repeat, more individuals than the capacity or >= 3 individuals')
     ctx.trusted_extra = [
         'fitness values of the correspondence are dyadic and pairwise identical or far apart, so binary64 comparisons and '
@@ -805,6 +864,8 @@ def run(ctx):
         ('invalid fitness (hall of fame)', invalid_cases()),
         # archives continued after pickle / deepcopy; keepers with an Objective subclass
         ('copied archives and Objective subclasses', copy_and_subclass_cases()),
+        # populations given as tuples / generators / iterators / map objects
+        ('population containers (tuple, generator, iterator)', container_cases(ctx)),
         # maxsize 0 (model only)
         ('maxsize 0', list(zero_size_cases())),
     ]
